@@ -450,6 +450,10 @@ func buildExchange(cfg genCfg, a *specMsg, ver int16, corr int32, clientID strin
 		Supported: a.Support, Sentinel: sentinel}
 	one := func(t reflect.Type, response bool) ([]byte, []Tok, int, error) {
 		g := &gen{cfg: cfg, version: ver, apiKey: a.Key, flex: flexibleAt(t, ver), toks: []Tok{}}
+		if g.flex {
+			// flexible versions: the message header ends with an (empty) tag buffer
+			g.tok(Tok{P: "_headerTags", K: "t", W: 1, L: 1, V: 0})
+		}
 		pv := reflect.New(t)
 		g.fill(pv.Elem(), false, "")
 		if g.err != nil {
@@ -465,20 +469,10 @@ func buildExchange(cfg genCfg, a *specMsg, ver int16, corr int32, clientID strin
 		if response {
 			err = protocol.WriteResponse(&buf, ver, corr, msg)
 			body = 8
-			if g.flex {
-				body = 9
-			}
 		} else {
 			err = protocol.WriteRequest(&buf, ver, corr, clientID, msg)
+			// (flexible versions write the client id as a nullable string: "" is null, 2 bytes either way)
 			body = 4 + 2 + 2 + 4 + 2 + len(clientID)
-			if g.flex {
-				// nullable client id + empty tag buffer
-				if clientID == "" {
-					body = 4 + 2 + 2 + 4 + 2 + 1
-				} else {
-					body++
-				}
-			}
 		}
 		if err != nil {
 			return nil, nil, 0, err
